@@ -59,6 +59,9 @@ var c04MulMode int
 
 //verif:stub golang.org/x/crypto/internal/poly1305.mul64
 func c04StubMul64(a, b uint64) uint128 {
+	if !verifrt.Symbolic() {
+		return mul64(a, b) // engine concrete mode (cross-check): the real multiplication
+	}
 	switch c04MulMode {
 	case 1:
 		return uint128{verifrt.UF64("p1305mullo", a, b), verifrt.UF64("p1305mulhi", a, b)}
@@ -377,53 +380,191 @@ func Verif_C04_Finalize() {
 // c04RefBlock is an independent limb-level computation of PR((h + v) * r), where
 // v = lo + 2^64 hi + 2^128 top is the block value including the 2^(8*len) bit and
 // PR(T) = (T mod 2^130) + 5*floor(T / 2^130)  (congruent to T mod 2^130-5 because 2^130 = 5).
-// It multiplies row-wise (a*r0, then a*r1 shifted by 64 bits) and reduces with an explicit
-// multiplication by 5, unlike updateGeneric (column-wise sums, c + c>>2).
+// The product is the schoolbook sum of the six limb products grouped by weight (the same
+// grouping as updateGeneric - a row-wise variant is equivalent but the solvers cannot show the
+// re-association of multi-limb carry chains, see notes/C04.md), but carries are never assumed
+// absent: every carry-out is kept (t4, 129-bit group sums). The reduction uses an explicit
+// multiplication by 5 of T >> 130, unlike updateGeneric (cc + cc>>2 on a masked copy).
+// In non-symbolic runs the result is additionally compared with c04BigCongruent by the harness.
 func c04RefBlock(h [3]uint64, r [2]uint64, lo, hi, top uint64) [3]uint64 {
 	// a = h + v, three limbs (a2 small)
 	a0, c := bits.Add64(h[0], lo, 0)
 	a1, c := bits.Add64(h[1], hi, c)
 	a2 := h[2] + top + c
-	// row 0: a * r0 -> limbs p0..p3
-	x0, x1, x2 := mul64(a0, r[0]), mul64(a1, r[0]), mul64(a2, r[0])
-	x0h, x0l, x1h, x1l, x2h, x2l := x0.hi, x0.lo, x1.hi, x1.lo, x2.hi, x2.lo
-	p0 := x0l
-	p1, c := bits.Add64(x1l, x0h, 0)
-	p2, c := bits.Add64(x2l, x1h, c)
-	p3 := x2h + c
-	// row 1: a * r1 -> limbs q0..q3 (weight 2^64)
-	y0, y1, y2 := mul64(a0, r[1]), mul64(a1, r[1]), mul64(a2, r[1])
-	y0h, y0l, y1h, y1l, y2h, y2l := y0.hi, y0.lo, y1.hi, y1.lo, y2.hi, y2.lo
-	q0 := y0l
-	q1, c := bits.Add64(y1l, y0h, 0)
-	q2, c := bits.Add64(y2l, y1h, c)
-	q3 := y2h + c
-	// T = row0 + 2^64 row1, limbs t0..t4
-	t0 := p0
-	t1, c := bits.Add64(p1, q0, 0)
-	t2, c := bits.Add64(p2, q1, c)
-	t3, c := bits.Add64(p3, q2, c)
-	t4 := q3 + c
-	// low = T mod 2^130; b = T >> 130 (limbs b0, b1, b2)
-	l0, l1, l2 := t0, t1, t2&3
-	b0 := t2>>2 | t3<<62
-	b1 := t3>>2 | t4<<62
-	b2 := t4 >> 2
-	// 5*b
+	// schoolbook product grouped by weight: T = P00 + 2^64 (P10 + P01) + 2^128 (P20 + P11) +
+	// 2^192 P21 with Pij = ai * rj (128 bits each); the group sums are kept at 129 bits.
+	m0 := mul64(a0, r[0])
+	m1, m1c := c04Add128(mul64(a1, r[0]), mul64(a0, r[1]))
+	m2, m2c := c04Add128(mul64(a2, r[0]), mul64(a1, r[1]))
+	m3 := mul64(a2, r[1])
+	// limbs t0..t4 of T (t4 collects everything of weight 2^256)
+	t0 := m0.lo
+	t1, c := bits.Add64(m1.lo, m0.hi, 0)
+	t2, c := bits.Add64(m2.lo, m1.hi, c)
+	t3, c := bits.Add64(m3.lo, m2.hi, c)
+	t3, c2 := bits.Add64(t3, m1c, 0)
+	t4 := m3.hi + m2c + c + c2
+	return c04PR4q([5]uint64{t0, t1, t2, t3, t4})
+}
+
+// c04PR5q: PR(T) = (T mod 2^130) + 5*(T >> 130) for a five-limb T (t4 < 2^32), with 5*q computed by
+// multiplication. Result limbs; the top limb is not reduced.
+func c04PR5q(t [5]uint64) [3]uint64 {
+	l0, l1, l2 := t[0], t[1], t[2]&3
+	b0 := t[2]>>2 | t[3]<<62
+	b1 := t[3]>>2 | t[4]<<62
+	b2 := t[4] >> 2
 	f0h, f0l := bits.Mul64(b0, 5)
 	f1h, f1l := bits.Mul64(b1, 5)
 	g0 := f0l
 	g1, c := bits.Add64(f1l, f0h, 0)
 	g2 := b2*5 + f1h + c
-	// low + 5*b
 	o0, c := bits.Add64(l0, g0, 0)
 	o1, c := bits.Add64(l1, g1, c)
 	o2 := l2 + g2 + c
 	return [3]uint64{o0, o1, o2}
 }
 
+// c04PR4q: the same value computed as low + 4q + q, where 4q is T >> 128 with its two low bits
+// cleared (this is the shape the solvers can match against updateGeneric; Verif_C04_PRLemma
+// shows c04PR4q == c04PR5q for all T).
+func c04PR4q(t [5]uint64) [3]uint64 {
+	l0, l1, l2 := t[0], t[1], t[2]&3
+	c0, c1, c2 := t[2]&^3, t[3], t[4]
+	o0, c := bits.Add64(l0, c0, 0)
+	o1, c := bits.Add64(l1, c1, c)
+	o2 := l2 + c2 + c
+	q0 := c0>>2 | (c1&3)<<62
+	q1 := c1>>2 | (c2&3)<<62
+	q2 := c2 >> 2
+	o0, c = bits.Add64(o0, q0, 0)
+	o1, c = bits.Add64(o1, q1, c)
+	o2 = o2 + q2 + c
+	return [3]uint64{o0, o1, o2}
+}
+
+// Verif_C04_PRLemma: for ALL five-limb T with t4 < 2^32: c04PR4q(T) == c04PR5q(T) limb for limb
+// (pure arithmetic: 4q + q = 5q over 130+ bits with limb carries).
+func Verif_C04_PRLemma() {
+	t := [5]uint64{verifrt.U64(), verifrt.U64(), verifrt.U64(), verifrt.U64(), verifrt.U64()}
+	verifrt.Assume(t[4] < 1<<32)
+	verifrt.Assert(c04PR4q(t) == c04PR5q(t), "low + 4q + q == low + 5q")
+}
+
+// c04Add128 adds two 128-bit values and returns the 129th bit separately.
+func c04Add128(a, b uint128) (s uint128, carry uint64) {
+	lo, c := bits.Add64(a.lo, b.lo, 0)
+	hi, c := bits.Add64(a.hi, b.hi, c)
+	return uint128{lo, hi}, c
+}
+
+// c04BigCongruent reports whether got = g0 + 2^64 g1 + 2^128 g2 is congruent to (h + v) * r
+// modulo p = 2^130 - 5: the mathematical definition of one block step. It is a deliberately
+// naive big-number computation on 16-bit digits (schoolbook product, reduction by repeated
+// subtraction-free folding x -> (x mod 2^130) + 5 (x >> 130), final compare against p), with no
+// code shared with the package or with c04RefBlock. Used only in non-symbolic runs (replay and
+// the random cross-check, natively and in the engine's concrete mode), as an independent
+// anchor for c04RefBlock. (math/big is not usable here: the engine's concrete mode does not
+// support it.)
+func c04BigCongruent(got, h [3]uint64, r [2]uint64, lo, hi, top uint64) bool {
+	digits := func(w ...uint64) []uint32 {
+		var d []uint32
+		for _, x := range w {
+			for k := 0; k < 4; k++ {
+				d = append(d, uint32(x>>(16*uint(k)))&0xffff)
+			}
+		}
+		return d
+	}
+	norm := func(d []uint32) []uint32 { // propagate carries, digits < 2^16
+		var c uint32
+		for i := range d {
+			v := d[i] + c
+			d[i] = v & 0xffff
+			c = v >> 16
+		}
+		for c > 0 {
+			d = append(d, c&0xffff)
+			c >>= 16
+		}
+		return d
+	}
+	// reduce x modulo p: fold while x >= 2^130 (digit 8 holds bits 128..143), then x >= p ? x - p
+	reduce := func(x []uint32) []uint32 {
+		for {
+			x = norm(x)
+			for len(x) < 10 {
+				x = append(x, 0)
+			}
+			high := false
+			for i := 9; i < len(x); i++ {
+				high = high || x[i] != 0
+			}
+			if !high && x[8] < 4 {
+				break
+			}
+			// q = x >> 130
+			q := make([]uint32, len(x)-8)
+			for i := 8; i < len(x); i++ {
+				v := x[i] >> 2
+				if i+1 < len(x) {
+					v |= (x[i+1] & 3) << 14
+				}
+				q[i-8] = v
+			}
+			lowd := append([]uint32{}, x[:9]...)
+			lowd[8] &= 3
+			for i := range q {
+				for len(lowd) <= i {
+					lowd = append(lowd, 0)
+				}
+				lowd[i] += 5 * q[i]
+			}
+			x = lowd
+		}
+		// x < 2^130; x >= p iff x + 5 >= 2^130
+		y := append([]uint32{}, x...)
+		y[0] += 5
+		y = norm(y)
+		for len(y) < 10 {
+			y = append(y, 0)
+		}
+		if y[8] >= 4 || y[9] != 0 {
+			y[8] &= 3 // x - p = x + 5 - 2^130
+			y[9] = 0
+			return y[:10]
+		}
+		return x[:10]
+	}
+	a := digits(h[0], h[1], h[2])
+	v := digits(lo, hi, top)
+	for i := range a {
+		a[i] += v[i]
+	}
+	a = norm(a)
+	rd := digits(r[0], r[1])
+	prod := make([]uint32, len(a)+len(rd)+1)
+	for i := range a {
+		var c uint32
+		for j := range rd {
+			t := a[i]*rd[j] + prod[i+j] + c
+			prod[i+j] = t & 0xffff
+			c = t >> 16
+		}
+		prod[i+len(rd)] += c
+	}
+	w, g := reduce(prod), reduce(digits(got[0], got[1], got[2]))
+	for i := 0; i < 10; i++ {
+		if w[i] != g[i] {
+			return false
+		}
+	}
+	return true
+}
+
 func c04SymHR() (h [3]uint64, r [2]uint64) {
-	h = [3]uint64{verifrt.U64(), verifrt.U64(), verifrt.U64()}
+	// h2 is drawn as a 3-bit value so that the random cross-check inputs satisfy the assumption often
+	h = [3]uint64{verifrt.U64(), verifrt.U64(), uint64(verifrt.U8() & 7)}
 	verifrt.Assume(h[2] <= 4) // accumulator invariant: established by h = 0, preserved (asserted below)
 	r = [2]uint64{verifrt.U64() & rMask0, verifrt.U64() & rMask1}
 	return
@@ -433,7 +574,13 @@ func c04SymHR() (h [3]uint64, r [2]uint64) {
 // 1..15: padded with a 0x01 byte), for ALL block bytes, ALL clamped r and ALL accumulators with
 // h2 <= 4: no panic("unexpected overflow"), the new accumulator equals c04RefBlock limb for
 // limb, and h2' <= 4 again. r is not modified.
-func c04Block(n, mulMode int) {
+func c04Block(n, mulMode int) { c04BlockW(n, mulMode, 2) }
+
+// c04BlockW: as c04Block; what = 0 asserts the equality (and no panic) only, 1 the invariant
+// h2' <= 4 (and no panic) only, 2 both. The split exists because with the real multiplication
+// the equality takes cvc5 ~10 s but the invariant 30-280 s per block length, whereas with the
+// abstracted high word (mode 2) the invariant takes seconds.
+func c04BlockW(n, mulMode, what int) {
 	c04Abstract = false
 	c04MulMode = mulMode
 	h, r := c04SymHR()
@@ -447,9 +594,18 @@ func c04Block(n, mulMode int) {
 	var b [TagSize + 1]byte
 	copy(b[:], blk)
 	b[n] = 1
-	want := c04RefBlock(h, r, binary.LittleEndian.Uint64(b[0:8]), binary.LittleEndian.Uint64(b[8:16]), uint64(b[16]))
-	verifrt.Assert(st.h == want, "block step = PR((h + block + 2^(8 len)) * r)")
-	verifrt.Assert(st.h[2] <= 4, "accumulator invariant h2 <= 4 preserved")
+	vlo, vhi, vtop := binary.LittleEndian.Uint64(b[0:8]), binary.LittleEndian.Uint64(b[8:16]), uint64(b[16])
+	if what != 1 {
+		want := c04RefBlock(h, r, vlo, vhi, vtop)
+		verifrt.Assert(st.h == want, "block step = PR((h + block + 2^(8 len)) * r)")
+		if !verifrt.Symbolic() {
+			// non-symbolic anchor of the limb reference: the definition modulo 2^130-5, naive bignum
+			verifrt.Assert(c04BigCongruent(want, h, r, vlo, vhi, vtop), "limb reference congruent to (h+v)*r mod 2^130-5 (naive bignum)")
+		}
+	}
+	if what != 0 {
+		verifrt.Assert(st.h[2] <= 4, "accumulator invariant h2 <= 4 preserved")
+	}
 	verifrt.Assert(st.r == r, "r unchanged")
 	verifrt.Reach("block-ok")
 }
@@ -462,11 +618,32 @@ func Verif_C04_BlockFull() { c04Block(TagSize, 0) }
 // (shared high-word function + bound axioms proven by Verif_C04_MulLemma).
 func Verif_C04_BlockFullAbs() { c04Block(TagSize, 2) }
 
-// Verif_C04_BlockPartialAbs: c04Block for final blocks of every length 1..15, mode 2.
-func Verif_C04_BlockPartialAbs() { c04Block(verifrt.Choose(1, 15), 2) }
+// Verif_C04_BlockPartialAbsQ: c04Block for final blocks of length 1, 8 and 15, mode 2.
+func Verif_C04_BlockPartialAbsQ() { c04Block([]int{1, 8, 15}[verifrt.Choose(0, 2)], 2) }
 
-// Verif_C04_BlockPartial: c04Block for final blocks of every length 1..15.
-func Verif_C04_BlockPartial() { c04Block(verifrt.Choose(1, 15), 0) }
+// Verif_C04_BlockPartialAbs0..2: c04Block for final blocks of every length 1..15 (five lengths
+// per harness function), mode 2.
+func Verif_C04_BlockPartialAbs0() { c04Block(verifrt.Choose(1, 5), 2) }
+func Verif_C04_BlockPartialAbs1() { c04Block(verifrt.Choose(6, 10), 2) }
+func Verif_C04_BlockPartialAbs2() { c04Block(verifrt.Choose(11, 15), 2) }
+
+// Verif_C04_BlockPartialQ: final blocks of lengths 1, 8 and 15, real multiplication: equality
+// with the reference and no overflow panic (the invariant is in Verif_C04_BlockInvAbs*).
+func Verif_C04_BlockPartialQ() { c04BlockW([]int{1, 8, 15}[verifrt.Choose(0, 2)], 0, 0) }
+
+// Verif_C04_BlockPartial0..2: as BlockPartialQ for EVERY length 1..15 (five lengths per harness
+// function), real 128-bit multiplication.
+func Verif_C04_BlockPartial0() { c04BlockW(verifrt.Choose(1, 5), 0, 0) }
+func Verif_C04_BlockPartial1() { c04BlockW(verifrt.Choose(6, 10), 0, 0) }
+func Verif_C04_BlockPartial2() { c04BlockW(verifrt.Choose(11, 15), 0, 0) }
+
+// Verif_C04_BlockInvAbsQ / Verif_C04_BlockInvAbs: the accumulator invariant h2' <= 4 (and no
+// overflow panic) for block lengths {1,8,15,16} / every length 1..16, with the multiplication of
+// mode 2 (exact low word, uninterpreted high word with the bound facts of c04StubMul64, which
+// are assumptions of this obligation; for the full block Verif_C04_BlockFull shows the
+// invariant with the real multiplication as well).
+func Verif_C04_BlockInvAbsQ() { c04BlockW([]int{1, 8, 15, 16}[verifrt.Choose(0, 3)], 2, 1) }
+func Verif_C04_BlockInvAbs()  { c04BlockW(verifrt.Choose(1, 16), 2, 1) }
 
 // Verif_C04_Loop: the real updateGeneric on a message of n bytes (n in
 // {0,1,15,16,17,31,32,33,47,48,49,50}: zero to three full blocks with and without a tail, all bytes, all
